@@ -30,6 +30,27 @@ def main(run):
             elif seen_ok and (c['wae'] or c['ns'] in ('', 'NONSTR') or c['ty'] in (5, 6) or c['pet'] == 'bad'):
                 run.nontrivial.add(json.dumps(h))
                 break
+    # unbounded argument for the design (history length and number of registrations unbounded): Apalache discharges the
+    # inductive invariant of spec/RegInd.tla (VariantAgree, MirrorExact, fresh registration ids): base case and inductive step
+    import os, shutil, subprocess
+    from harness import tla
+    if shutil.which('apalache-mc'):
+        wd = os.path.join(tla.WORK, f'{run.pid}-apalache')
+        shutil.rmtree(wd, ignore_errors=True)
+        os.makedirs(wd)
+        shutil.copy(os.path.join(tla.SPEC, 'RegInd.tla'), wd)
+        ok = []
+        for init, length in (('Init', 0), ('IndInit', 1)):
+            try:
+                p = subprocess.run(['apalache-mc', 'check', f'--init={init}', '--inv=IndInv', f'--length={length}', f'--out-dir={wd}/out', 'RegInd.tla'],
+                                   cwd=wd, capture_output=True, text=True, timeout=900)
+                ok.append('The outcome is: NoError' in p.stdout)
+                if 'The outcome is: Error' in p.stdout:
+                    run.violation({'kind': 'model', 'invariant': 'IndInv', 'step': init}, f'Apalache: the inductive invariant of RegInd.tla fails ({init})')
+            except subprocess.TimeoutExpired:
+                ok.append(False)
+        run.extra['apalache_inductive_invariant'] = {'base_case': ok[0], 'inductive_step': ok[1]}
+        shutil.rmtree(wd, ignore_errors=True)
     run.evaluations += R.replay_and_validate(run, 'exh', hs)
     run.evaluations += R.replay_and_validate(run, 'sim', sim)
     run.evaluations += R.replay_and_validate(run, 'rnd', rnd)
